@@ -332,6 +332,8 @@ fn spellings(k: f64, operand: &str) -> Vec<(&'static str, String, Option<(String
         ("api-constant-right", "x * K".to_string(), Some(("K".to_string(), k))),
         ("k*(x)", format!("{lit} * (x)"), None),
         ("-(k'*x)", if neg { format!("-({ks} * x)") } else { format!("-((0 - {ks}) * x)") }, None),
+        // a unary minus over a sum with a constant term that cancels outside
+        ("-(k'*x-1)-1", if neg { format!("-({ks} * x - 1) - 1") } else { format!("-((0 - {ks}) * x - 1) - 1") }, None),
     ];
     // x / negative literal needs parentheses-free literal: "x / -0.5" is valid (unary on the leaf)
     v.retain(|s| !s.1.contains("--"));
@@ -415,7 +417,7 @@ fn part_b_case(i: u64, l: &mut Local) {
 pub fn run(mut run: Run) -> ! {
     crate::core::silence_panics();
     let quick = run.quick();
-    run.rule = "part A: every Exp tree with <= 2 operator nodes over the full leaf alphabet {0,1,-0,2,-1,0.5,x,y,b} and every logic-only tree (not, and, or, xor, implies, iff over b, x, 0, 1, 2) with 3 operator nodes (thorough adds every tree with 3 operator nodes over a reduced alphabet) over every constructor (BinOp x9, UnOp x2, Abs, Not, Xor, Implies, Iff, n-ary And/Or/Min/Max with 0-3 operands) is rewritten with simplify, flatten and both compositions and evaluated at 72 assignments by an exact reference evaluator; part B: 10 model templates (the coefficient multiplies a variable, or a max / abs / min block in the objective or in rows) x 6 constants x 14 spellings of the coefficient (incl. named and API-supplied constants on either side) are compiled and compared; distinct = tree debug text / reference twin source; non-trivial = defined at some assignment / compiles".into();
+    run.rule = "part A: every Exp tree with <= 2 operator nodes over the full leaf alphabet {0,1,-0,2,-1,0.5,x,y,b} and every logic-only tree (not, and, or, xor, implies, iff over b, x, 0, 1, 2) with 3 operator nodes (thorough adds every tree with 3 operator nodes over a reduced alphabet) over every constructor (BinOp x9, UnOp x2, Abs, Not, Xor, Implies, Iff, n-ary And/Or/Min/Max with 0-3 operands) is rewritten with simplify, flatten and both compositions and evaluated at 72 assignments by an exact reference evaluator; part B: 10 model templates (the coefficient multiplies a variable, or a max / abs / min block in the objective or in rows) x 6 constants x 15 spellings of the coefficient (incl. named and API-supplied constants on either side) are compiled and compared; distinct = tree debug text / reference twin source; non-trivial = defined at some assignment / compiles".into();
     run.assume("reference semantics: strict exact evaluation, truthy iff non-zero, division by zero undefined; a division is 'diagnosable' when its denominator contains a variable or is a constant zero");
     run.assume("twin models compared row for row, else by exact equivalence (same optimum/status for the objective and for +-e_i on every declared variable; auxiliaries may differ in number and naming)");
     let envs = Arc::new(assignments());
